@@ -371,4 +371,6 @@ static std::string num_probe()
     return o.str();
 }
 
+VH_STARTUP_PROBE(num_probe)
+
 int main(int argc, char **argv) { vh::g_probe = num_probe; return run_main(argc, argv, dispatch); }
